@@ -190,7 +190,7 @@ class Run:
                 print("  key=%s %s (x%d)" % (key, str(what)[:600], len(bykey[key])))
         if nviol > 12:
             print("  ... and %d more violation keys (replay files under %s)" % (nviol - 12, os.path.join(VERIF, "replays")))
-        if not getattr(self, "replay_mode", False):
+        if not getattr(self, "replay_mode", False) and os.path.realpath(REPO) == "/repo":      # runs against a scratch copy leave no evidence
             self.write_evidence(level, nviol, sorted(k for k in bykey if k in known))
         shutil.rmtree(self.work, ignore_errors=True)
         return 1 if nviol else 0
